@@ -859,6 +859,11 @@ impl Xot {
                     }
                 }
             } else {
+                // the text ended inside a start tag: the element was never
+                // opened, let alone closed
+                if let Some(element_builder) = &builder.element_builder {
+                    return Err(ParseError::UnclosedTag(element_builder.span));
+                }
                 return Ok((span_info, builder));
             }
         }
